@@ -36,10 +36,10 @@ func ruleSkiplistShape(r *Report) {
 				return
 			}
 			a := argsOf(c)
-			if po := paramOrigin(a[0]); po != nil && po.Name() == "key" {
+			if po := paramOrigin(a[0]); po != nil && refName(po) == "key" {
 				ss := s
 				cmp = &ss
-			} else if po := paramOrigin(a[1]); po != nil && po.Name() == "key" {
+			} else if po := paramOrigin(a[1]); po != nil && refName(po) == "key" {
 				ss := s
 				cmp, swapped = &ss, true
 			}
